@@ -163,13 +163,59 @@ pub fn run_c07(cx: &Ctx) -> i32 {
         });
         t
     });
-    let t = Tally::merge_all(tallies);
+    let mut t = Tally::merge_all(tallies);
+    // Tall pass: every context x one-node fillers over long regular texts, default limits only:
+    // a search whose reference exploration is tiny must not end in a limit error (a construct that
+    // should be atomic but is re-entered makes such searches exponential).
+    let tall_space = crate::spaces::Space::new().ctxfill(1, 1, &|_| true);
+    let tall_texts = crate::refsweep::tall_texts(if cx.quick() { 32 } else { 64 });
+    let tall = par::run_workers(8, |_w, claimer| {
+        engine::quiet_panics();
+        engine::set_sweep_horizons(FUEL, STACK_CAP);
+        let mut t = Tally::new();
+        tall_space.for_each(claimer, &mut |node, tag| {
+            let facts = ast::facts(node);
+            if !facts.refs_valid {
+                return;
+            }
+            let pattern = ast::to_pattern(node);
+            let re = match engine::compile(&pattern) {
+                Ok(r) => r,
+                Err(_) => return,
+            };
+            let prog = match ir::from_ast(node) {
+                Ok(p) => p,
+                Err(_) => return,
+            };
+            t.programs += 1;
+            for text in &tall_texts {
+                t.evaluations += 1;
+                let (_, info) = refsem::search(&prog, text, 0, false);
+                if info.steps > TINY {
+                    continue;
+                }
+                let out = engine::captures_at(&re, text, 0);
+                if let Out::Err(e) = &out {
+                    t.violation(
+                        weight(&pattern, text),
+                        jobj! {"kind" => "c07", "pattern" => pattern.as_str(), "text" => text.as_str(), "pos" => 0, "observed" => e.as_str(),
+                        "summary" => format!("/{}/ on {:?}: default limits: {} although the reference exploration needs only {} steps (horizons: fuel {}, branch stack {})", pattern, text, e, info.steps, FUEL, STACK_CAP)},
+                    );
+                } else {
+                    t.count("tall_cases_reference_tiny", 1);
+                    let _ = tag;
+                }
+            }
+        });
+        t
+    });
+    t.merge(Tally::merge_all(tall));
     finish(
         cx,
         t,
         Finish {
             rule: format!(
-                "every pattern of {} (F1 and conditionals included) x every text over {:?} up to length {} x every offset x backtrack limits {:?} and B-1, B, B+1 where B is the number of backtracks of the unlimited run read through hook H1; oracle: (a) result(L) is BacktrackLimitExceeded or equal to the unlimited result; (b) L >= B implies the unlimited result; (c) with default limits and a reference exploration of at most {} steps no StackOverflow / BacktrackLimitExceeded (hook horizons: fuel {}, branch stack {} - a run that hits them is reported, not waited for); (d) instructions and branch-stack depth <= 4*(B+2)*(chars+2)*(|prog|+2); non-trivial = VM-compiled cases with B >= 1",
+                "every pattern of {} (F1 and conditionals included) x every text over {:?} up to length {} x every offset x backtrack limits {:?} and B-1, B, B+1 where B is the number of backtracks of the unlimited run read through hook H1; oracle: (a) result(L) is BacktrackLimitExceeded or equal to the unlimited result; (b) L >= B implies the unlimited result; (c) with default limits and a reference exploration of at most {} steps no StackOverflow / BacktrackLimitExceeded (hook horizons: fuel {}, branch stack {} - a run that hits them is reported, not waited for); (d) instructions and branch-stack depth <= 4*(B+2)*(chars+2)*(|prog|+2); non-trivial = VM-compiled cases with B >= 1; plus a tall pass (every context x one-node fillers over long regular texts up to 32 / 64 characters, default limits) for oracle (c)",
                 space.describe(), alphabet, max_len, fixed_limits, TINY, FUEL, STACK_CAP
             ),
             exhaustive: true,
